@@ -1,6 +1,7 @@
 package vc
 
 import (
+	"os"
 	"fmt"
 	"go/constant"
 	"go/token"
@@ -1726,7 +1727,10 @@ func (x *Exec) trackMapKey(st *State, m, k Value) {
 		return
 	}
 	for _, t := range k.L {
-		if !(t.IsLit() || t.Op == "intlit" || t.Op == "true" || t.Op == "false" || x.isStrLit(t)) {
+		if !x.groundLit(t) {
+			if traceCalls {
+				fmt.Fprintf(os.Stderr, "TRACE map tracking dropped: key leaf %s\n", x.C.Show(t))
+			}
 			delete(st.Heap.mapKeys, m.L[0].ID)
 			return
 		}
@@ -1746,6 +1750,23 @@ func (x *Exec) trackMapKey(st *State, m, k Value) {
 	copy(nk, keys)
 	nk[len(keys)] = k
 	st.Heap.mapKeys[m.L[0].ID] = nk
+}
+
+// groundLit: a literal, or an injective box of literals (an interface holding a literal
+// value) - distinct such terms denote distinct keys.
+func (x *Exec) groundLit(t *Term) bool {
+	if t.IsLit() || t.Op == "true" || t.Op == "false" || x.isStrLit(t) {
+		return true
+	}
+	if t.Op == "app" && strings.HasPrefix(t.Name, "box$") {
+		for _, a := range t.Args {
+			if !x.groundLit(a) {
+				return false
+			}
+		}
+		return true
+	}
+	return false
 }
 
 func (x *Exec) isStrLit(t *Term) bool {
